@@ -44,10 +44,36 @@ def pad_const_py(c, dtype):
     return float(fq(c[0]))
 
 
+def flags_of(cd, key):
+    """per-axis [L, R] nodes-on-boundary flags (0 | 1); key 'dbdry' (domain) or 'rbdry' (requested for the range)"""
+    f = cd.get(key)
+    return [list(p) for p in f] if f else [[0, 0] for _ in cd['dom']]
+
+
+def bdry_arg(flags, style):
+    """The nodes_on_bdry argument in one of the accepted spellings."""
+    pairs = [(bool(p[0]), bool(p[1])) for p in flags]
+    if style == 'alt':
+        if all(p == pairs[0] and p[0] == p[1] for p in pairs):
+            return pairs[0][0]                       # one bool for everything
+        if len(pairs) == 1:
+            return pairs[0]                          # 1-d: a bare (left, right) pair
+    return pairs
+
+
+def span(m, h, flags):
+    """extent of a uniform partition with m nodes, cell side h and [L, R] flags"""
+    return Fraction(2 * m - flags[0] - flags[1], 2) * h
+
+
 def make_domain(cd):
+    df = flags_of(cd, 'dbdry')
     lo = [float(fq(q)) for q in cd['lo']]
-    hi = [float(fq(q) + n * fq(h)) for q, n, h in zip(cd['lo'], cd['dom'], cd['hs'])]
-    return odl.uniform_discr(lo, hi, list(cd['dom']), dtype=cd['dtype'])
+    hi = [float(fq(q) + span(n, fq(h), f)) for q, n, h, f in zip(cd['lo'], cd['dom'], cd['hs'], df)]
+    kw = {}
+    if any(f != [0, 0] for f in df):
+        kw['nodes_on_bdry'] = bdry_arg(df, cd.get('style'))
+    return odl.uniform_discr(lo, hi, list(cd['dom']), dtype=cd['dtype'], **kw)
 
 
 _ops = {}
@@ -55,7 +81,7 @@ _ops = {}
 
 def make_operator(cd):
     key = dumps_key([cd['dom'], cd['ran'], cd['offs'], cd['mode'], cd['c'], cd['dtype'], cd['lo'], cd['hs'],
-                     cd.get('construct', 'ran_shp')])
+                     cd.get('construct', 'ran_shp'), cd.get('dbdry'), cd.get('rbdry'), cd.get('style'), cd.get('rdtype')])
     op = _ops.get(key)
     if op is None:
         if len(_ops) > 64:
@@ -72,18 +98,38 @@ def dumps_key(o):
 def _make_operator(cd):
     dom = make_domain(cd)
     c = pad_const_py(cd['c'], cd['dtype'])
+    alt = cd.get('style') == 'alt'
+    mode = cd['mode'].upper() if alt else cd['mode']
+    if alt:
+        c = np.array(c)                               # 0-d array instead of a Python scalar
     how = cd.get('construct', 'ran_shp')
+    df, rf = flags_of(cd, 'dbdry'), flags_of(cd, 'rbdry')
+    dk = {}
+    if cd.get('rbdry') is not None:
+        dk['nodes_on_bdry'] = bdry_arg(rf, cd.get('style'))
+    if cd.get('rdtype'):
+        dk['dtype'] = cd['rdtype']
+    kw = {'discr_kwargs': dk} if dk else {}
+    ran_shp = list(cd['ran']) if alt else tuple(cd['ran'])
     if how == 'default':
-        return odl.ResizingOperator(dom, ran_shp=tuple(cd['ran']), pad_mode=cd['mode'], pad_const=c)
+        return odl.ResizingOperator(dom, ran_shp=ran_shp, pad_mode=mode, pad_const=c, **kw)
     if how == 'range':
+        # the range space is built explicitly (test input): nodes continue the domain grid, `offs` nodes to the left
         rlo, rhi = [], []
-        for q, m, n, h, o in zip(cd['lo'], cd['dom'], cd['ran'], cd['hs'], cd['offs']):
-            lo = fq(q) - o * fq(h) if n >= m else fq(q) + o * fq(h)
+        for q, m, n, h, o, f, g in zip(cd['lo'], cd['dom'], cd['ran'], cd['hs'], cd['offs'], df, rf):
+            h = fq(h)
+            node0 = fq(q) + (0 if f[0] else h / 2)
+            node0 = node0 - o * h if n >= m else node0 + o * h
+            lo = node0 - (0 if g[0] else h / 2)
             rlo.append(float(lo))
-            rhi.append(float(lo + n * fq(h)))
-        ran = odl.uniform_discr(rlo, rhi, list(cd['ran']), dtype=cd['dtype'])
-        return odl.ResizingOperator(dom, ran, pad_mode=cd['mode'], pad_const=c)
-    return odl.ResizingOperator(dom, ran_shp=tuple(cd['ran']), offset=list(cd['offs']), pad_mode=cd['mode'], pad_const=c)
+            rhi.append(float(lo + span(n, h, g)))
+        rkw = {'nodes_on_bdry': bdry_arg(rf, cd.get('style'))} if any(g != [0, 0] for g in rf) else {}
+        ran = odl.uniform_discr(rlo, rhi, list(cd['ran']), dtype=cd.get('rdtype') or cd['dtype'], **rkw)
+        return odl.ResizingOperator(dom, ran, pad_mode=mode, pad_const=c)
+    offs = list(cd['offs'])
+    if alt and all(o is not None and o == offs[0] for o in offs):
+        offs = int(offs[0])                           # one int for all axes
+    return odl.ResizingOperator(dom, ran_shp=ran_shp, offset=offs, pad_mode=mode, pad_const=c, **kw)
 
 
 def geometry(op, Dg):
@@ -94,8 +140,16 @@ def geometry(op, Dg):
             s = snap(float(t), Dg)
             out.append(qj(s) if isinstance(s, Fraction) else [0, 0])
         return out
+    invok = 0
+    try:
+        inv = op.inverse
+        if inv.domain == op.range and inv.range == op.domain and tuple(inv.offset) == tuple(op.offset):
+            invok = 1
+    except Exception:
+        invok = 0
     return {'ranlo': qs(op.range.min_pt), 'ranhi': qs(op.range.max_pt), 'ranshape': [int(s) for s in op.range.shape],
             'rancell': qs(op.range.cell_sides), 'domcell': qs(op.domain.cell_sides),
+            'rannode0': qs(op.range.grid.min_pt), 'domnode0': qs(op.domain.grid.min_pt), 'invok': invok,
             'offs': [int(o) for o in op.offset], 'axes': [int(a) for a in op.axes]}
 
 
@@ -115,8 +169,18 @@ def execute(cd):
                 fill = -7777 if dt.kind in 'iu' else np.nan
                 out = np.full(tuple(cd['ran']), fill, dtype=dt, order=cd.get('order', 'C'))
                 kw['out'] = out
-            res = resize_array(arr, tuple(cd['ran']), offset=list(cd['offs']), pad_mode=cd['mode'], pad_const=c,
-                               direction=cd['dir'], **kw)
+            if cd.get('style') == 'alt':
+                # the other accepted spellings of the same call: nested list input, list shape, one int offset,
+                # upper-case option strings, 0-d array pad constant
+                offs = list(cd['offs'])
+                offs = int(offs[0]) if all(o == offs[0] for o in offs) else tuple(offs)
+                inp = arr.tolist() if ('out' not in kw and str(np.dtype(dtype)) in ('int64', 'float64', 'complex128')
+                                       and arr.size > 0) else arr
+                res = resize_array(inp, list(cd['ran']), offset=offs, pad_mode=cd['mode'].upper(), pad_const=np.array(c),
+                                   direction=cd['dir'].upper(), **kw)
+            else:
+                res = resize_array(arr, tuple(cd['ran']), offset=list(cd['offs']), pad_mode=cd['mode'], pad_const=c,
+                                   direction=cd['dir'], **kw)
             if 'out' in kw and res is not kw['out']:
                 notes.append('out-not-returned')
             if not np.array_equal(arr, before):
@@ -153,7 +217,7 @@ def execute(cd):
             notes.append('result-not-in-range')
         if not np.array_equal(xb, x.asarray()):
             notes.append('input-modified')
-        return snap_block(res.asarray(), D, dtype), '', notes, info
+        return snap_block(res.asarray(), D, cd.get('rdtype') or dtype if v in ('call', 'derivative') else dtype), '', notes, info
     except Exception as e:
         return [], type(e).__name__, notes + [str(e)[:100]], info
 
